@@ -809,6 +809,8 @@ func (w *c11World) alphabet() []*c11Op {
 		{op: "batch", sig: sB, batch: map[hotstuff.ID][]byte{1: []byte("ab"), 2: []byte("d")}, alter: "batch-entry"},
 		{op: "batch", sig: c11Relabel(sB, []hotstuff.ID{1, 3}), batch: map[hotstuff.ID][]byte{1: []byte("ab"), 3: []byte("c")}, alter: "signer-labels"},
 		{op: "batch", sig: sB, batch: map[hotstuff.ID][]byte{1: []byte("ab"), 3: []byte("c")}, alter: "batch-ids"},
+		{op: "batch", sig: sB, batch: map[hotstuff.ID][]byte{1: []byte("ab"), 2: []byte("c"), 3: []byte("d")}, alter: "batch-extra-entry"},
+		{op: "batch", sig: sB, batch: map[hotstuff.ID][]byte{1: []byte("ab")}, alter: "batch-missing-entry"},
 		{op: "batch", sig: s12, batch: map[hotstuff.ID][]byte{1: m0}, alter: "verify-as-batch"},
 		{op: "verify", sig: sB, msg: []byte("abc"), alter: "batch-as-verify"},
 		{op: "sign", msg: m0},
@@ -956,7 +958,7 @@ func (w *c11World) alterOp(v *verifOut, o *c11Op) *c11Op {
 	n.batch = c11CloneBatch(o.batch)
 	isBatch := o.op == "batch" || o.op == "aggqc"
 	for try := 0; try < 12; try++ {
-		switch v.rng.Intn(13) {
+		switch v.rng.Intn(16) {
 		case 0: // message
 			if o.op == "verify" {
 				n.msg = c11Msgs[v.rng.Intn(len(c11Msgs))]
@@ -1079,6 +1081,26 @@ func (w *c11World) alterOp(v *verifOut, o *c11Op) *c11Op {
 					return &n
 				}
 			}
+		case 13, 14: // same signature, the batch (or the aggregate QC's map) gains an entry for a non-signer
+			if isBatch && o.sig.kind != c11Nil {
+				to := hotstuff.ID(1 + v.rng.Intn(w.n+2)) // up to two ids that are not replicas
+				if _, taken := o.batch[to]; !taken {
+					if o.op == "batch" {
+						n.batch[to] = append([]byte("x"), c11Msgs[v.rng.Intn(len(c11Msgs))]...) // distinct from the pool
+					} else {
+						n.batch[to] = nil
+					}
+					n.alter = "batch-extra-entry"
+					return &n
+				}
+			}
+		case 15: // same signature, one signer's entry is missing from the batch
+			if isBatch && len(o.batch) >= 2 {
+				ids := c11SortedIDs(o.batch)
+				delete(n.batch, ids[v.rng.Intn(len(ids))])
+				n.alter = "batch-missing-entry"
+				return &n
+			}
 		case 11: // verification kind
 			if o.op == "verify" && o.sig.kind != c11Nil && len(o.sig.ids) >= 1 {
 				n.op = "batch"
@@ -1173,6 +1195,48 @@ func (w *c11World) boundary(v *verifOut) {
 			{op: "batch", sig: w.batchSig(map[hotstuff.ID][]byte{1: []byte("a"), 2: []byte("b")}), batch: map[hotstuff.ID][]byte{1: append(append(append([]byte("a"), hotstuff.View(2).ToBytes()...), hotstuff.View(1).ToBytes()...), 'b')}, alter: "batch-split"},
 			{op: "batch", sig: w.batchSig(map[hotstuff.ID][]byte{1: []byte("a"), 2: []byte("b")}), batch: map[hotstuff.ID][]byte{1: []byte("a"), 3: []byte("b")}, alter: "batch-ids"},
 			{op: "batch", sig: w.batchSig(map[hotstuff.ID][]byte{1: []byte("a"), 2: []byte("b")}), batch: map[hotstuff.ID][]byte{2: []byte("a"), 1: []byte("b")}, alter: "batch-entry"}},
+		// a remembered 3-signer batch, then the same signature with a superset / subset batch
+		func() []*c11Op {
+			b3 := map[hotstuff.ID][]byte{1: []byte("ab"), 2: []byte("c"), 3: []byte("a")}
+			sg := w.batchSig(b3)
+			with := func(id hotstuff.ID, m string) map[hotstuff.ID][]byte {
+				b := c11CloneBatch(b3)
+				b[id] = []byte(m)
+				return b
+			}
+			less := c11CloneBatch(b3)
+			delete(less, 3)
+			return []*c11Op{
+				{op: "batch", sig: sg, batch: b3},
+				{op: "batch", sig: sg, batch: with(4, "bc"), alter: "batch-extra-entry"},
+				{op: "batch", sig: sg, batch: with(9, "bc"), alter: "batch-extra-entry"},
+				{op: "batch", sig: sg, batch: with(4, ""), alter: "batch-extra-entry"},
+				{op: "batch", sig: sg, batch: less, alter: "batch-missing-entry"},
+				{op: "batch", sig: sg, batch: b3, alter: "same"},
+			}
+		}(),
+		// the same through VerifyAggregateQC: an extra id -> QC entry for a non-signer
+		func() []*c11Op {
+			ids := func(l ...hotstuff.ID) map[hotstuff.ID][]byte {
+				b := map[hotstuff.ID][]byte{}
+				for _, id := range l {
+					b[id] = nil
+				}
+				return b
+			}
+			b := map[hotstuff.ID][]byte{}
+			for _, id := range []hotstuff.ID{1, 2, 3} {
+				b[id] = c11TimeoutBytes(id, 7)
+			}
+			sg := w.batchSig(b)
+			return []*c11Op{
+				{op: "aggqc", sig: sg, batch: ids(1, 2, 3), view: 7},
+				{op: "aggqc", sig: sg, batch: ids(1, 2, 3, 4), view: 7, alter: "batch-extra-entry"},
+				{op: "aggqc", sig: sg, batch: ids(1, 2, 3, 9), view: 7, alter: "batch-extra-entry"},
+				{op: "aggqc", sig: sg, batch: ids(1, 2), view: 7, alter: "batch-missing-entry"},
+				{op: "aggqc", sig: sg, batch: ids(1, 2, 3), view: 7, alter: "same"},
+			}
+		}(),
 		{{op: "tc", sig: w.multi(hotstuff.View(0).ToBytes(), 1, 2, 3), view: 0}, {op: "tc", sig: w.multi(hotstuff.View(5).ToBytes(), 1, 2, 3), view: 5}, {op: "tc", sig: w.multi(hotstuff.View(5).ToBytes(), 1, 2, 3), view: 6, alter: "view"}, {op: "tc", sig: w.multi(hotstuff.View(5).ToBytes(), 1, 2, 3), view: 1 << 63, alter: "view"}},
 		{{op: "combine", sigs: []*c11Sig{w.atom(1, m0)}}, {op: "combine", sigs: nil}, {op: "combine", sigs: []*c11Sig{w.atom(1, m0), w.atom(1, m0)}}, {op: "combine", sigs: []*c11Sig{w.atom(1, m0), w.atom(2, []byte("c"))}}},
 	}
